@@ -98,22 +98,24 @@ class _Comp:
         self.parent, self.field = parent, field
 
 
-class SymDatetime:
-    """EPOCH + secs seconds"""
+US = 10**6
 
-    def __init__(self, secs):
+
+class SymDatetime:
+    """EPOCH + secs seconds (+ micro microseconds, 0 unless the scenario asks for sub-second times)"""
+
+    def __init__(self, secs, micro=0):
         self.secs = secs
+        self.micro = micro  # Sym INT in [0, 999999] or int
 
     @staticmethod
     def of(x):
         if isinstance(x, SymDatetime):
             return x
         if isinstance(x, _dt.datetime):
-            d = x - EPOCH
-            s = d.total_seconds()
-            if s != int(s):
-                raise symx.Unsupported("sub-second datetime")
-            return SymDatetime(int(s))
+            d = x.replace(tzinfo=None) - EPOCH
+            total_us = d // _dt.timedelta(microseconds=1)
+            return SymDatetime(total_us // US, total_us % US)
         raise TypeError(type(x))
 
     year = property(lambda self: _Comp(self, "year"))
@@ -122,34 +124,56 @@ class SymDatetime:
     hour = property(lambda self: _Comp(self, "hour"))
     minute = property(lambda self: _Comp(self, "minute"))
     second = property(lambda self: self.secs % 60)
+    microsecond = property(lambda self: self.micro)
+    tzinfo = None
 
     def floor_minute(self):
-        return SymDatetime(self.secs - self.secs % 60)
+        return SymDatetime(self.secs - self.secs % 60, 0)
+
+    def replace(self, **kw):
+        """datetime.replace for the fields a minute-rounding helper touches"""
+        secs, micro = self.secs, self.micro
+        for k, v in kw.items():
+            if k == "second":
+                secs = secs - secs % 60 + v
+            elif k == "microsecond":
+                micro = v
+            elif k == "tzinfo" and v is None:
+                pass
+            else:
+                raise symx.Unsupported(f"datetime.replace({k}=...) on a symbolic datetime")
+        return SymDatetime(secs, micro)
+
+    def _key(self):
+        return self.secs * US + self.micro
 
     def __add__(self, o):
         s = _secs(o)
         if s is None:
             return NotImplemented
-        return SymDatetime(self.secs + s)
+        return SymDatetime(self.secs + s, self.micro)
 
     __radd__ = __add__
 
     def __sub__(self, o):
         if isinstance(o, (_dt.datetime, SymDatetime)):
-            return SymTimedelta(self.secs - SymDatetime.of(o).secs)
+            other = SymDatetime.of(o)
+            if not (isinstance(self.micro, int) and isinstance(other.micro, int) and self.micro == other.micro):
+                raise symx.Unsupported("difference of datetimes with sub-second parts")
+            return SymTimedelta(self.secs - other.secs)
         s = _secs(o)
         if s is None:
             return NotImplemented
-        return SymDatetime(self.secs - s)
+        return SymDatetime(self.secs - s, self.micro)
 
     def __rsub__(self, o):
         if isinstance(o, _dt.datetime):
-            return SymTimedelta(SymDatetime.of(o).secs - self.secs)
+            return SymDatetime.of(o) - self
         return NotImplemented
 
     def _cmp(self, o, f):
         if isinstance(o, (_dt.datetime, SymDatetime)):
-            return f(self.secs, SymDatetime.of(o).secs)
+            return f(self._key(), SymDatetime.of(o)._key())
         return NotImplemented
 
     def __eq__(self, o):
@@ -214,13 +238,13 @@ def install(module_name="demeter.strategy.trigger"):
     return {module_name: ["datetime"]}
 
 
-def sym_datetime(ctx, name, base: _dt.datetime, lo_s, hi_s):
-    """base + symbolic seconds in [lo_s, hi_s]; concrete mode: a real datetime"""
-    if ctx.sym:
-        s = ctx.int_(name, lo_s, hi_s)
-        return SymDatetime(SymDatetime.of(base).secs + s)
+def sym_datetime(ctx, name, base: _dt.datetime, lo_s, hi_s, subsecond=False):
+    """base + symbolic seconds in [lo_s, hi_s] (+ symbolic microseconds if subsecond); concrete mode: a real datetime"""
     s = ctx.int_(name, lo_s, hi_s)
-    return base + _dt.timedelta(seconds=s)
+    us = ctx.int_(name + "_us", 0, 999999) if subsecond else 0
+    if ctx.sym:
+        return SymDatetime(SymDatetime.of(base).secs + s, us)
+    return base + _dt.timedelta(seconds=s, microseconds=us)
 
 
 def sym_timedelta(ctx, name, lo_s, hi_s, multiple_of=1):
